@@ -2,7 +2,7 @@
    mode "model" (default): executes op lines on the extracted [step] with the shape translated from
    the source ([src_shape]); after every line prints the directory listing
        <name hex>:<mtime ms>:<content hex>;...        (sorted by name hex)
-     case <L> <N> <opts> <gran ms> <base> <suffix> <t0>   fresh directory, sink constructed at t0
+     case <L> <N> <opts> <gran ms> <base> <suffix> <t0> <tz min east>   fresh directory, sink constructed at t0
      w <payload> | adv <ms> | restart | put <name> <bytes>
    mode "oracle": evaluates the extracted boolean oracles on a snapshot reconstructed by the check
      cfg <L> <N> <opts> <base> <suffix>                   (also clears the accumulated history)
@@ -28,8 +28,8 @@ let unhex h = if h = "-" then [] else
 let hex l = let b = Buffer.create 64 in List.iter (fun c -> Buffer.add_string b (Printf.sprintf "%02x" (int_of_n c))) l;
   if Buffer.length b = 0 then "-" else Buffer.contents b
 let gran_of = function 1 -> G1ms | 1000 -> G1s | 2000 -> G2s | _ -> failwith "granularity"
-let mkcfg l n o g b s = { cL = z_of_int l; cN = z_of_int n; startup = o land 1 <> 0; daily = o land 2 <> 0;
-                          compress = o land 4 <> 0; cgran = gran_of g; cbase = unhex b; csuffix = unhex s }
+let mkcfg l n o g b s tz = { cL = z_of_int l; cN = z_of_int n; startup = o land 1 <> 0; daily = o land 2 <> 0;
+                          compress = o land 4 <> 0; cgran = gran_of g; cbase = unhex b; csuffix = unhex s; ctz = z_of_int tz }
 let dump c w =
   let items = List.map (fun ((nm, bytes), mt) -> Printf.sprintf "%s:%d:%s" (hex nm) (int_of_z mt) (hex bytes)) (listing c w) in
   print_endline (String.concat ";" (List.sort compare items))
@@ -49,7 +49,7 @@ let () =
   let mode = if Array.length Sys.argv > 1 then Sys.argv.(1) else "model" in
   let only = if Array.length Sys.argv > 2 then Sys.argv.(2) else "" in
   if mode = "shape" then (print_endline (if shape_eqb src_shape std_shape then "1" else "0"); exit 0);
-  let cfg = ref (mkcfg 0 0 0 1 "-" "-") in
+  let cfg = ref (mkcfg 0 0 0 1 "-" "-" 0) in
   let w = ref (w0 !cfg Z0) in
   let hist = ref [] in
   try while true do
@@ -57,7 +57,7 @@ let () =
     let toks = String.split_on_char ' ' line in
     if mode = "oracle" then begin
       match toks with
-      | ["cfg"; l; n; o; b; s] -> cfg := mkcfg (int_of_string l) (int_of_string n) (int_of_string o) 1 b s; hist := []; print_endline "ok"
+      | ["cfg"; l; n; o; b; s] -> cfg := mkcfg (int_of_string l) (int_of_string n) (int_of_string o) 1 b s 0; hist := []; print_endline "ok"
       | ["h"; rs] -> hist := !hist @ recs rs; print_endline "ok"
       | ["s"; lost; chk; g; r; a; amt; fe; fo] ->
         let sn = { s_hist = !hist; s_gone = files g; s_rot = files r; s_act = recs a; s_act_mt = z_of_int (int_of_string amt);
@@ -68,8 +68,8 @@ let () =
       | _ -> print_endline "?"
     end else begin
       (match toks with
-       | ["case"; l; n; o; g; b; s; t0] ->
-         cfg := mkcfg (int_of_string l) (int_of_string n) (int_of_string o) (int_of_string g) b s;
+       | ["case"; l; n; o; g; b; s; t0; tz] ->
+         cfg := mkcfg (int_of_string l) (int_of_string n) (int_of_string o) (int_of_string g) b s (int_of_string tz);
          w := w0 !cfg (z_of_int (int_of_string t0))
        | ["w"; p] -> w := step src_shape !cfg !w (Write (unhex p))
        | ["adv"; d] -> w := step src_shape !cfg !w (Advance (z_of_int (int_of_string d)))
